@@ -33,7 +33,7 @@ def gen_spec(rnd):
     nw = rnd.randint(2, 5)
     ws = []
     for i in range(nw):
-        ws.append({'name': 'w%d' % i, 'numprocesses': rnd.choice([0, 1, 1, 2, 3, 4]), 'priority': rnd.choice([0, 1, 2, 2, 5]),
+        ws.append({'name': 'w%d' % i, 'numprocesses': rnd.choice([0, 1, 1, 2, 3, 4]), 'priority': rnd.choice([-3, 0, 1, 2, 2, 5]),
                    'warmup_delay': rnd.choice([0, 0, .2, 1]), 'autostart': rnd.random() < .8,
                    'graceful_timeout': rnd.choice([0, .2])})
         if rnd.random() < .3:
@@ -47,8 +47,14 @@ def gen_spec(rnd):
             ws[-1].setdefault('hooks', {})[hk[0]] = [hk[1], False]
     trig = rnd.choice(['boot', 'boot', 'start-all', 'restart-glob', 'start-glob', 'start-regex', 'restart-regex',
                        'restart-all-names', 'restart-during-check'])
-    return {'watchers': ws, 'arb': {'warmup_delay': rnd.choice([0, 0, 1, 2])}, 'trigger': trig,
-            'death_at': rnd.randint(1, 40) if rnd.random() < .33 else None}
+    h = {'watchers': ws, 'arb': {'warmup_delay': rnd.choice([0, 0, 1, 2])}, 'trigger': trig,
+         'death_at': rnd.randint(1, 40) if rnd.random() < .33 else None}
+    if rnd.random() < .25:
+        # the set of watchers changes at run time before the group operation: one removed, one added (no start)
+        h['swap'] = {'rm': rnd.choice([w['name'] for w in ws]),
+                     'add': {'name': 'w9', 'numprocesses': rnd.choice([1, 2]), 'priority': 0,   # not settable through add
+                             'warmup_delay': rnd.choice([0, .2]), 'autostart': True, 'graceful_timeout': 0.2}}
+    return h
 
 
 def run_case(spec):
@@ -134,6 +140,20 @@ def _run(w, h, res):
     trig = h['trigger']
     if trig == 'boot':
         return
+    if h.get('swap'):
+        sw = h['swap']
+        yield w.call('rm', name=sw['rm'], waiting=True)
+        yield w.settle(60)
+        a = sw['add']
+        rep = yield w.call('add', name=a['name'], cmd=simhist.tag_of(a['name']),
+                           options={k_: a[k_] for k_ in ('numprocesses', 'warmup_delay', 'graceful_timeout')})
+        yield w.settle(30)
+        if isinstance(rep, dict) and rep.get('status') == 'ok':
+            confs = [c for c in confs if c['name'] != sw['rm']] + [a]
+            res.obs['watcher_set_changed_before_the_sequence'] += 1
+        else:
+            confs = [c for c in confs if c['name'] != sw['rm']]
+            res.hist['add_refused'][str(rep)[:120]] += 1
     if h.get('death_at'):
         _arm(w, h)
     # stop everything first for the start-type triggers so that the sequence really spawns
@@ -174,8 +194,9 @@ def _during_check(w, h, res):
     """a restart / start request arriving while a periodic check is busy respawning that watcher's workers one
     warmup_delay apart: whatever is accepted, two spawns of the watcher are never closer than its warmup_delay"""
     k = w.kernel
-    cands = [c for c in h['watchers'] if c['autostart'] and c['numprocesses'] >= 2 and c['warmup_delay'] > 0
-             and not c.get('hooks') and w.arb.get_watcher(c['name']).status() == 'active']
+    present = set(x.name for x in w.arb.watchers)
+    cands = [c for c in h['watchers'] if c['name'] in present and c['autostart'] and c['numprocesses'] >= 2
+             and c['warmup_delay'] > 0 and not c.get('hooks') and w.arb.get_watcher(c['name']).status() == 'active']
     if not cands:
         res.obs['restart-during-check:no-suitable-watcher'] += 1
         return
